@@ -9,6 +9,10 @@ ST_Links == SeqsUpTo(Links({"S"}, {"S"}, {"S"}, {c_a}, {<<>>}, Bnd, Bnd), 2)
 ST_Links1 == SeqsUpTo(Links({"S"}, {"S"}, {"S"}, {c_a}, {<<>>}, Bnd, Bnd), 1)
 ST_Links3 == SeqsUpTo(Links({"S"}, {"S"}, {"S"}, {c_a}, {<<>>}, {-1, 2}, {-1, 4}), 3)
 
+\* ---- loader family: the same token checked with loaders that hold / have lost the delegations ----
+SL_Inv   == Invs({"S", "X"}, {"S"}, {None}, {c_a}, {0}, {-1}, {"none"}, {0})
+SL_Links == SeqsUpTo(Links({"S"}, {"S", "X"}, {"S"}, {c_a}, {<<>>}, {-1}, {-1}), 2)
+
 \* ---- hook family: the same token checked with different argument hooks ----
 SH_Pols  == {<<>>, <<Acc({0, 1})>>, <<Acc({1})>>, <<Acc({0})>>, <<Acc({0, 1, 2, 3})>>, <<Acc({1, 2}), Acc({0, 1})>>}
 SH_Inv   == Invs({"S"}, {"S"}, {None}, {c_a}, {0, 1, 2}, {-1}, {"none"}, {0})
